@@ -144,7 +144,6 @@ impl PartialEq for Rule {
 
 impl Hash for Rule {
     fn hash<H: Hasher>(&self, state: &mut H) {
-        self.id.hash(state);
         self.resource.hash(state);
     }
 }
